@@ -184,6 +184,20 @@ pub fn check(st: &mut Stats, c: &C) {
                 chk(st, "timestamp-vs-oracle", t.partial_cmp(&o), t == o, t != o, t < o, t <= o, t > o, t >= o, e);
                 chk(st, "oracle-vs-timestamp", o.partial_cmp(&t), o == t, o != t, o < t, o <= t, o > t, o >= t, e.reverse());
             }
+            if c.a % 1_000_000 == 0 && c.a <= ORA_MAX && c.b % 1_000_000 == 0 && c.b <= ORA_MAX {
+                use std::hash::{Hash, Hasher};
+                let (x, y) = (OracleDate::try_from_usecs(c.a).expect("ora"), OracleDate::try_from_usecs(c.b).expect("ora"));
+                st.op(Op::O_cmp);
+                chk(st, "oracle-vs-oracle", x.partial_cmp(&y), x == y, x != y, x < y, x <= y, x > y, x >= y, e);
+                let hh = |v: &OracleDate| {
+                    let mut s = std::collections::hash_map::DefaultHasher::new();
+                    v.hash(&mut s);
+                    s.finish()
+                };
+                if x.cmp(&y) != e || (e == Ordering::Equal && hh(&x) != hh(&y)) {
+                    st.fail("C17/compare/oracle-vs-oracle", format!("{} vs {}", c.a, c.b));
+                }
+            }
             if c.a % 1_000_000 == 0 && c.a <= ORA_MAX && c.b % DAY_US == 0 {
                 let o = OracleDate::try_from_usecs(c.a).expect("ora");
                 let d = Date::try_from_days((c.b / DAY_US) as i32).expect("date");
